@@ -21,9 +21,10 @@ def variants(rng, n):
     yield "reversed_twice", n.reverse().reverse()
 
 
-def hk_trace_problems(ctx, a, b, ta, tb, sy, eq_outcome, label):
+def hk_trace_prepare(a, b, ta, tb, sy, label):
+    """Run a == b under the spy; return (wire item for the mirror model under the observed schedule, judge)."""
     if a.input_symbols != b.input_symbols:
-        return []
+        return None, None
     sta, stb = enc.Renum(enc.nfa_names(a)), enc.Renum(enc.nfa_names(b))
 
     def el(e):
@@ -34,24 +35,30 @@ def hk_trace_problems(ctx, a, b, ta, tb, sy, eq_outcome, label):
     got, rec = hkspy.observe_eq(a, b)
     order = [sy(c) for c in a.input_symbols]
     ties = [[el(x), el(y)] for x, y in rec.first_wins]
-    m_res, m_log = ctx.driver.batch([(7, 7, enc.tree([ta, tb, order, ties]))])[0]
-    m_res = enc.dec_res(m_res)
-    want = ("ok", m_res[1] == 1) if m_res[0] == "ok" else ("err", m_res[1])
     calls = [[el(x), el(y)] for x, y in rec.calls]
-    out = []
-    if got[:2] != want or got[:2] != eq_outcome[:2]:
-        out.append(f"{label} under the observed schedule: impl {got} (unobserved run {eq_outcome}) mirror model {want}")
-    if calls != m_log:
-        out.append(f"{label}: union-find calls differ from the mirror model's: impl {calls} model {m_log}")
-    ctx.tally("hk_trace_compared")
-    ctx.tally(f"hk_unions_{min(len(calls), 6)}{'+' if len(calls) >= 6 else ''}")
-    return out
+
+    def judge(ctx, answer, eq_outcome):
+        m_res, m_log = answer
+        m_res = enc.dec_res(m_res)
+        want = ("ok", m_res[1] == 1) if m_res[0] == "ok" else ("err", m_res[1])
+        out = []
+        if got[:2] != want or got[:2] != eq_outcome[:2]:
+            out.append(f"{label} under the observed schedule: impl {got} (unobserved run {eq_outcome}) mirror model {want}")
+        if calls != m_log:
+            out.append(f"{label}: union-find calls differ from the mirror model's: impl {calls} model {m_log}")
+        ctx.tally("hk_trace_compared")
+        ctx.tally(f"hk_unions_{min(len(calls), 6)}{'+' if len(calls) >= 6 else ''}")
+        return out
+
+    return (7, 7, enc.tree([ta, tb, order, ties])), judge
 
 
 def check_pair(ctx, a, b, tag, defs=None):
     sy = enc.SymMap(a.input_symbols | b.input_symbols)
     ta, tb = enc.enc_nfa(a, None, sy), enc.enc_nfa(b, None, sy)
-    ans, hk = ctx.driver.batch([(7, 5, enc.tree([ta, tb])), (7, 6, enc.tree([ta, tb]))])
+    traces = [hk_trace_prepare(a, b, ta, tb, sy, "eq"), hk_trace_prepare(b, a, tb, ta, sy, "eq_rev")]
+    ans, hk, *trace_ans = ctx.driver.batch([(7, 5, enc.tree([ta, tb])), (7, 6, enc.tree([ta, tb]))]
+                                           + [item for item, _ in traces if item])
     m_eq, m_ne, m_eq_rev, diff = (enc.dec_res(x) for x in ans)
     hk_eq, hk_eq_alt, hk_eq_rev = (enc.dec_res(x) for x in hk)
     got = {"eq": outcome(lambda: a == b), "ne": outcome(lambda: a != b),
@@ -74,8 +81,10 @@ def check_pair(ctx, a, b, tag, defs=None):
     ctx.tally("hk_mirror_compared")
     # the run of the loop itself: union calls seen by a spy on networkx's UnionFind against the mirror model driven
     # by the schedule the implementation actually used (symbol iteration order, tie-breaks); both argument orders
-    trace_problems = hk_trace_problems(ctx, a, b, ta, tb, sy, got["eq"], "eq")
-    trace_problems += hk_trace_problems(ctx, b, a, tb, ta, sy, got["eq_rev"], "eq_rev")
+    trace_problems = []
+    if traces[0][0]:
+        trace_problems += traces[0][1](ctx, trace_ans[0], got["eq"])
+        trace_problems += traces[1][1](ctx, trace_ans[1], got["eq_rev"])
     da, db = DFA.from_nfa(a), DFA.from_nfa(b)
     if got["eq"][0] == "ok" and (da == db) != got["eq"][1]:
         problems.append(f"== on the NFAs is {got['eq'][1]} but == on their determinisations is {da == db}")
